@@ -278,9 +278,9 @@ func (b *Broker[T]) Stop() {
 // Wait blocks until either the context has been canceled, or all work
 // has been completed.
 func (b *Broker[T]) Wait(ctx context.Context) {
-	b.mu.Lock()
-	defer b.mu.Unlock()
-
+	// the WaitGroup synchronizes itself: holding b.mu for the
+	// duration of the wait would keep Stop (which needs it) from
+	// ever stopping the broker.
 	b.wg.Wait(ctx)
 }
 
